@@ -1,7 +1,988 @@
-//! C02 — node-level correspondence harness (stub; see /verif/AGENT_GUIDE.md).
+//! C02 — stored chain state and every snapshot equal a replay of the main chain.
+//!
+//! The harness drives a real node (`node.rs`) with random block trees over random always-success
+//! transaction DAGs and, after every processed block / truncation, dumps the real database
+//! (COLUMN_CELL / CELL_DATA / CELL_DATA_HASH / TRANSACTION_INFO / INDEX / UNCLES / EPOCH /
+//! BLOCK_EPOCH / BLOCK_EXT / META) into a canonical text form (ids instead of hashes).
+//!
+//!   * model tie: the dump is the answer line; `ckbmodel C02` must print the same line from
+//!     `Model/Store.lean` (the chain-service step over the column maps).
+//!   * oracle (implementation only): the same dump of `ChainBuilder::replay_store(tip)` — a store
+//!     that only ever attached genesis..=tip in order — must agree column by column (exactly for the
+//!     main-chain view columns, on the main chain's keys for the per-block records), the raw bytes
+//!     of the view columns must be identical, and the chain-root MMR nodes below the tip's mmr size
+//!     must be identical. Published snapshots (kept by the writer after every op and grabbed by a
+//!     reader thread at random instants) are checked against the replay of the chain their own tip
+//!     names, and must never change afterwards.
+//!
+//! Line protocol (one case = one node):
+//!   cfg <epoch_len> <w_close> <w_far> <genesis_cells>
+//!   gtx <id> out=<dlen>.<dtag>,...                       genesis transactions (checked against the real genesis)
+//!   genesis txs=<id,...>                                 => dump
+//!   tx <id> fee=<f> salt=<s> in=<tx:idx,...> out=<dlen>.<dtag>,...
+//!   block <id> <parent> salt=<s> ep=<n>.<i>.<l> cb=<0|1> txs=<..> props=<..> uncles=<..>   => new|known|err dump
+//!   truncate <block id>                                   => ok|err dump
+//!   snap <k>                                              => dump of the snapshot published after the k-th state op
 use crate::common::*;
+use crate::node::*;
+use ckb_db::iter::IteratorMode;
+use ckb_db_schema::*;
+use ckb_merkle_mountain_range::leaf_index_to_mmr_size;
+use ckb_snapshot::Snapshot;
+use ckb_store::ChainStore;
+use ckb_types::core::{BlockView, EpochNumberWithFraction, TransactionView};
+use ckb_types::packed::{self, Byte32, OutPoint};
+use ckb_types::prelude::*;
+use molecule::prelude::Reader as _;
+use std::collections::{BTreeMap, BTreeSet, HashMap, HashSet};
+use std::path::PathBuf;
+use std::sync::atomic::{AtomicBool, Ordering};
+use std::sync::{Arc, Mutex};
 
-pub fn run(_opts: &Opts) {
-    eprintln!("C02: harness not implemented");
-    std::process::exit(2);
+pub const ZERO_ID: u64 = 4_000_000_000;
+pub const CB_BASE: u64 = 1_000_000;
+
+// ------------------------------------------------------------------------------------------------
+// ids and the canonical dump
+// ------------------------------------------------------------------------------------------------
+
+#[derive(Default)]
+pub struct Ids {
+    pub blk: HashMap<Byte32, u64>,
+    pub tx: HashMap<Byte32, u64>,
+    pub txv: HashMap<u64, TransactionView>,
+    pub blkv: HashMap<u64, BlockView>,
+}
+
+const UNKNOWN: u64 = u64::MAX;
+
+impl Ids {
+    fn b(&self, h: &Byte32) -> (u64, String) {
+        if h == &Byte32::zero() {
+            return (ZERO_ID, ZERO_ID.to_string());
+        }
+        match self.blk.get(h) {
+            Some(i) => (*i, i.to_string()),
+            None => (UNKNOWN, format!("?{}", &hex(h.as_slice())[..8])),
+        }
+    }
+    fn t(&self, h: &Byte32) -> (u64, String) {
+        match self.tx.get(h) {
+            Some(i) => (*i, i.to_string()),
+            None => (UNKNOWN, format!("?{}", &hex(h.as_slice())[..8])),
+        }
+    }
+    pub fn add_block(&mut self, id: u64, b: &BlockView) {
+        self.blk.insert(b.hash(), id);
+        self.blkv.insert(id, b.clone());
+        let cb = b.transactions()[0].clone();
+        self.tx.insert(cb.hash(), CB_BASE + id);
+        self.txv.insert(CB_BASE + id, cb);
+    }
+    pub fn add_tx(&mut self, id: u64, t: &TransactionView) {
+        self.tx.insert(t.hash(), id);
+        self.txv.insert(id, t.clone());
+    }
+}
+
+fn le64(b: &[u8]) -> u64 {
+    let mut a = [0u8; 8];
+    a.copy_from_slice(&b[..8]);
+    u64::from_le_bytes(a)
+}
+
+/// `<len>.<tag>` of a cell data: tag = the value for 8-byte data, else the first 8 bytes of its hash
+pub fn dtag(data: &[u8]) -> String {
+    if data.is_empty() {
+        return "-".to_string();
+    }
+    let tag = if data.len() == 8 { le64(data) } else { le64(packed::CellOutput::calc_data_hash(data).as_slice()) };
+    format!("{}.{}", data.len(), tag)
+}
+
+fn ep(v: u64) -> String {
+    let e = EpochNumberWithFraction::from_full_value_unchecked(v);
+    format!("{}.{}.{}", e.number(), e.index(), e.length())
+}
+
+const SECTIONS: [&str; 12] = ["cell", "data", "dhash", "txinfo", "index", "rindex", "uncles", "bepoch", "epoch", "epnum", "ext", "meta"];
+/// columns that are exactly the main chain's view
+const EXACT: [&str; 8] = ["cell", "data", "dhash", "txinfo", "index", "rindex", "uncles", "meta"];
+/// per-block records: the node also keeps rows of side-chain blocks; the replay's rows must be there
+const SUBSET: [&str; 3] = ["bepoch", "epoch", "ext"];
+
+#[derive(Default, Clone, PartialEq)]
+pub struct Dump {
+    pub sec: BTreeMap<&'static str, BTreeMap<Vec<u64>, String>>,
+}
+
+impl Dump {
+    fn put(&mut self, s: &'static str, k: Vec<u64>, v: String) {
+        self.sec.entry(s).or_default().insert(k, v);
+    }
+    pub fn line(&self) -> String {
+        let mut parts = vec![];
+        for s in SECTIONS {
+            let e: Vec<String> = self.sec.get(s).map(|m| m.values().cloned().collect()).unwrap_or_default();
+            parts.push(format!("{}={}", s, if e.is_empty() { "-".to_string() } else { e.join(",") }));
+        }
+        parts.join(" ")
+    }
+}
+
+fn iter_col<S: ChainStore>(s: &S, col: Col) -> Vec<(Vec<u8>, Vec<u8>)> {
+    s.get_iter(col, IteratorMode::Start).map(|(k, v)| (k.to_vec(), v.to_vec())).collect()
+}
+
+pub fn dump<S: ChainStore>(s: &S, ids: &Ids, genesis_difficulty: &ckb_types::U256) -> Dump {
+    let mut d = Dump::default();
+    for (k, v) in iter_col(s, COLUMN_CELL) {
+        let h = Byte32::from_slice(&k[..32]).unwrap();
+        let idx = u32::from_be_bytes([k[32], k[33], k[34], k[35]]) as u64;
+        let (ti, ts) = ids.t(&h);
+        let e = packed::CellEntryReader::from_slice_should_be_ok(&v);
+        let (_, bs) = ids.b(&e.block_hash().to_entity());
+        let num: u64 = e.block_number().into();
+        let epv: u64 = e.block_epoch().into();
+        let txi: u32 = e.index().into();
+        let dsz: u64 = e.data_size().into();
+        let same = ids.txv.get(&ti).and_then(|t| t.output(idx as usize)).map(|o| o.as_slice() == e.output().as_slice()).unwrap_or(false);
+        d.put("cell", vec![ti, idx], format!("{}:{}@{}/{}/{}/{}/{}/{}", ts, idx, bs, num, ep(epv), txi, dsz, if same { "=" } else { "!" }));
+    }
+    for (k, v) in iter_col(s, COLUMN_CELL_DATA) {
+        let h = Byte32::from_slice(&k[..32]).unwrap();
+        let idx = u32::from_be_bytes([k[32], k[33], k[34], k[35]]) as u64;
+        let (ti, ts) = ids.t(&h);
+        let txt = if v.is_empty() {
+            "-".to_string()
+        } else {
+            let e = packed::CellDataEntryReader::from_slice_should_be_ok(&v);
+            let data = e.output_data().raw_data();
+            let ok = packed::CellOutput::calc_data_hash(data).as_slice() == e.output_data_hash().as_slice();
+            format!("{}{}", dtag(data), if ok { "" } else { "!" })
+        };
+        d.put("data", vec![ti, idx], format!("{}:{}/{}", ts, idx, txt));
+    }
+    for (k, v) in iter_col(s, COLUMN_CELL_DATA_HASH) {
+        let h = Byte32::from_slice(&k[..32]).unwrap();
+        let idx = u32::from_be_bytes([k[32], k[33], k[34], k[35]]) as u64;
+        let (ti, ts) = ids.t(&h);
+        let txt = if v.is_empty() {
+            "-".to_string()
+        } else {
+            // must be the hash of that output's data in the transaction itself
+            match ids.txv.get(&ti).and_then(|t| t.outputs_data().get(idx as usize)) {
+                Some(data) if packed::CellOutput::calc_data_hash(&data.raw_data()).as_slice() == &v[..] => dtag(&data.raw_data()),
+                _ => "!".to_string(),
+            }
+        };
+        d.put("dhash", vec![ti, idx], format!("{}:{}/{}", ts, idx, txt));
+    }
+    for (k, v) in iter_col(s, COLUMN_TRANSACTION_INFO) {
+        let (ti, ts) = ids.t(&Byte32::from_slice(&k).unwrap());
+        let e = packed::TransactionInfoReader::from_slice_should_be_ok(&v);
+        let (_, bs) = ids.b(&e.key().block_hash().to_entity());
+        let num: u64 = e.block_number().into();
+        let epv: u64 = e.block_epoch().into();
+        let idx: u32 = e.key().index().into();
+        d.put("txinfo", vec![ti], format!("{}@{}/{}/{}/{}", ts, bs, idx, num, ep(epv)));
+    }
+    for (k, v) in iter_col(s, COLUMN_INDEX) {
+        if k.len() == 8 {
+            let (_, bs) = ids.b(&Byte32::from_slice(&v).unwrap());
+            d.put("index", vec![le64(&k)], format!("{}:{}", le64(&k), bs));
+        } else {
+            let (bi, bs) = ids.b(&Byte32::from_slice(&k).unwrap());
+            d.put("rindex", vec![bi], format!("{}:{}", bs, le64(&v)));
+        }
+    }
+    for (k, v) in iter_col(s, COLUMN_UNCLES) {
+        let kh = Byte32::from_slice(&k).unwrap();
+        let (bi, bs) = ids.b(&kh);
+        let hv = packed::HeaderViewReader::from_slice_should_be_ok(&v);
+        let ok = hv.hash().as_slice() == kh.as_slice();
+        d.put("uncles", vec![bi], format!("{}{}", bs, if ok { "" } else { "!" }));
+    }
+    for (k, v) in iter_col(s, COLUMN_BLOCK_EPOCH) {
+        let (bi, bs) = ids.b(&Byte32::from_slice(&k).unwrap());
+        let (_, ks) = ids.b(&Byte32::from_slice(&v).unwrap());
+        d.put("bepoch", vec![bi], format!("{}:{}", bs, ks));
+    }
+    for (k, v) in iter_col(s, COLUMN_EPOCH) {
+        if k.len() == 8 {
+            let (_, ks) = ids.b(&Byte32::from_slice(&v).unwrap());
+            d.put("epnum", vec![le64(&k)], format!("{}:{}", le64(&k), ks));
+        } else {
+            let kh = Byte32::from_slice(&k).unwrap();
+            let (ki, ks) = ids.b(&kh);
+            let e: ckb_types::core::EpochExt = packed::EpochExtReader::from_slice_should_be_ok(&v).into();
+            let ok = e.last_block_hash_in_previous_epoch() == kh;
+            d.put("epoch", vec![ki], format!("{}:{}/{}/{}{}", ks, e.number(), e.start_number(), e.length(), if ok { "" } else { "!" }));
+        }
+    }
+    for (k, _v) in iter_col(s, COLUMN_BLOCK_EXT) {
+        let kh = Byte32::from_slice(&k).unwrap();
+        let (bi, bs) = ids.b(&kh);
+        let e = s.get_block_ext(&kh).expect("ext row");
+        let v = match e.verified {
+            Some(true) => "T",
+            Some(false) => "F",
+            None => "N",
+        };
+        let td = if &e.total_difficulty >= genesis_difficulty {
+            let x = &e.total_difficulty - genesis_difficulty;
+            let q = &x / genesis_difficulty;
+            let r = &x % genesis_difficulty;
+            if r == ckb_types::U256::zero() { q.to_string() } else { format!("{}!", e.total_difficulty) }
+        } else {
+            format!("{}!", e.total_difficulty)
+        };
+        let fees: Vec<String> = e.txs_fees.iter().map(|c| c.as_u64().to_string()).collect();
+        d.put("ext", vec![bi], format!("{}:{}/{}/{}/{}", bs, v, td, e.total_uncles_count, if fees.is_empty() { "-".to_string() } else { fees.join(".") }));
+    }
+    // meta: tip and current epoch only (chain-spec hash, migration version, filter marker are not chain state)
+    if let Some(v) = s.get(COLUMN_META, META_TIP_HEADER_KEY) {
+        let (_, bs) = ids.b(&Byte32::from_slice(v.as_ref()).unwrap());
+        d.put("meta", vec![0], format!("tip:{}", bs));
+    }
+    if let Some(e) = s.get_current_epoch_ext() {
+        let (_, ks) = ids.b(&e.last_block_hash_in_previous_epoch());
+        d.put("meta", vec![1], format!("cur:{}/{}/{}/{}", e.number(), e.start_number(), e.length(), ks));
+    }
+    d
+}
+
+/// ext text without the fields a replay store cannot know (nothing today: received_at, cycles and
+/// sizes are not printed at all)
+fn first_diff(a: &BTreeMap<Vec<u64>, String>, b: &BTreeMap<Vec<u64>, String>, subset: bool) -> Option<String> {
+    for (k, v) in b {
+        match a.get(k) {
+            Some(x) if x == v => {}
+            Some(x) => return Some(format!("node has `{}` replay has `{}`", x, v)),
+            None => return Some(format!("node lacks `{}`", v)),
+        }
+    }
+    if !subset {
+        for (k, v) in a {
+            if !b.contains_key(k) {
+                return Some(format!("node has extra `{}`", v));
+            }
+        }
+    }
+    None
+}
+
+/// the property itself, on the implementation alone: node dump vs dump of the reference replay
+pub fn compare_with_replay(node: &Dump, replay: &Dump) -> Vec<(String, String)> {
+    let empty = BTreeMap::new();
+    let mut v = vec![];
+    for s in EXACT {
+        if let Some(d) = first_diff(node.sec.get(s).unwrap_or(&empty), replay.sec.get(s).unwrap_or(&empty), false) {
+            v.push((format!("view-{}-neq-replay", s), d));
+        }
+    }
+    for s in SUBSET {
+        if let Some(d) = first_diff(node.sec.get(s).unwrap_or(&empty), replay.sec.get(s).unwrap_or(&empty), true) {
+            v.push((format!("record-{}-neq-replay", s), d));
+        }
+    }
+    // F9: the epoch number -> epoch index rows are part of the main-chain view
+    if let Some(d) = first_diff(node.sec.get("epnum").unwrap_or(&empty), replay.sec.get("epnum").unwrap_or(&empty), false) {
+        v.push(("epoch-number-row-neq-replay".to_string(), d));
+    }
+    v
+}
+
+fn raw_view<S: ChainStore>(s: &S) -> Vec<(Col, Vec<(Vec<u8>, Vec<u8>)>)> {
+    [COLUMN_CELL, COLUMN_CELL_DATA, COLUMN_CELL_DATA_HASH, COLUMN_TRANSACTION_INFO, COLUMN_INDEX, COLUMN_UNCLES].iter().map(|c| (*c, iter_col(s, c))).collect()
+}
+
+fn mmr_rows<S: ChainStore>(s: &S, tip_number: u64) -> Vec<Option<Vec<u8>>> {
+    let size = leaf_index_to_mmr_size(tip_number);
+    (0..size).map(|p| s.get_header_digest(p).map(|d| d.as_slice().to_vec())).collect()
+}
+
+// ------------------------------------------------------------------------------------------------
+// abstract history
+// ------------------------------------------------------------------------------------------------
+
+#[derive(Clone, Debug)]
+pub struct ATx {
+    pub id: u64,
+    pub fee: u64,
+    pub salt: u64,
+    pub inputs: Vec<(u64, u32)>,
+    pub nout: usize,
+}
+
+#[derive(Clone, Debug)]
+pub struct ABlock {
+    pub id: u64,
+    pub parent: u64,
+    pub number: u64,
+    pub salt: u64,
+    pub cb_out: bool,
+    pub txs: Vec<u64>,
+    pub props: Vec<u64>,
+    pub uncles: Vec<u64>,
+}
+
+fn list<T: ToString>(v: &[T]) -> String {
+    if v.is_empty() { "-".into() } else { v.iter().map(|x| x.to_string()).collect::<Vec<_>>().join(",") }
+}
+
+fn parse_list(s: &str) -> Vec<u64> {
+    if s == "-" { vec![] } else { s.split(',').map(|x| x.parse().expect("number list")).collect() }
+}
+
+fn kv<'a>(tok: &'a str, key: &str) -> &'a str {
+    tok.strip_prefix(key).and_then(|r| r.strip_prefix('=')).unwrap_or_else(|| panic!("malformed op: expected {}=…, got {}", key, tok))
+}
+
+// ------------------------------------------------------------------------------------------------
+// executor: op lines -> real node
+// ------------------------------------------------------------------------------------------------
+
+struct Reader {
+    stop: Arc<AtomicBool>,
+    got: Arc<Mutex<Vec<Arc<Snapshot>>>>,
+    jh: Option<std::thread::JoinHandle<()>>,
+}
+
+pub struct Exec<'a> {
+    out: &'a mut Out,
+    base: PathBuf,
+    case_no: u64,
+    cfg: NodeCfg,
+    node: Option<Node>,
+    builder: Option<ChainBuilder>,
+    pub ids: Ids,
+    pub ablocks: HashMap<u64, ABlock>,
+    pub atxs: HashMap<u64, ATx>,
+    gdiff: ckb_types::U256,
+    /// (snapshot, dump line at publication time) after every state op
+    snaps: Vec<(Arc<Snapshot>, String)>,
+    reader: Option<Reader>,
+    pub reorg_depths: BTreeSet<u64>,
+    pub stale_epnum_seen: bool,
+}
+
+impl<'a> Exec<'a> {
+    pub fn new(out: &'a mut Out, base: PathBuf) -> Self {
+        Exec {
+            out,
+            base,
+            case_no: 0,
+            cfg: NodeCfg::default(),
+            node: None,
+            builder: None,
+            ids: Ids::default(),
+            ablocks: HashMap::new(),
+            atxs: HashMap::new(),
+            gdiff: ckb_types::U256::one(),
+            snaps: vec![],
+            reader: None,
+            reorg_depths: BTreeSet::new(),
+            stale_epnum_seen: false,
+        }
+    }
+
+    pub fn begin_case(&mut self, label: &str) {
+        self.end_case();
+        self.case_no = self.out.begin_case(label);
+    }
+
+    pub fn tip_id(&self) -> u64 {
+        *self.ids.blk.get(&self.node.as_ref().unwrap().tip_hash()).expect("tip id")
+    }
+
+    pub fn cap_of(&self, tx: u64, idx: u32) -> u64 {
+        let c: ckb_types::core::Capacity = self.ids.txv[&tx].output(idx as usize).expect("output").capacity().unpack();
+        c.as_u64()
+    }
+
+    fn start_reader(&mut self) {
+        let shared = self.node.as_ref().unwrap().shared.clone();
+        let stop = Arc::new(AtomicBool::new(false));
+        let got = Arc::new(Mutex::new(Vec::<Arc<Snapshot>>::new()));
+        let (s2, g2) = (stop.clone(), got.clone());
+        let seed = self.case_no;
+        let jh = std::thread::spawn(move || {
+            let mut rng = Rng::new(seed ^ 0x5eed);
+            let mut last: *const Snapshot = std::ptr::null();
+            while !s2.load(Ordering::Relaxed) {
+                let s = shared.cloned_snapshot();
+                if Arc::as_ptr(&s) != last {
+                    last = Arc::as_ptr(&s);
+                    let mut g = g2.lock().unwrap();
+                    if g.len() < 400 {
+                        g.push(s);
+                    }
+                }
+                let us = rng.below(400);
+                if us > 50 {
+                    std::thread::sleep(std::time::Duration::from_micros(us));
+                }
+            }
+        });
+        self.reader = Some(Reader { stop, got, jh: Some(jh) });
+    }
+
+    /// node dump + all oracles at a quiescent point; returns the dump line
+    fn observe(&mut self) -> String {
+        let node = self.node.as_ref().unwrap();
+        let snap = node.shared.cloned_snapshot();
+        let d = dump(node.store(), &self.ids, &self.gdiff);
+        let line = d.line();
+        let tip = node.store().get_tip_header().expect("tip");
+        // the published snapshot is the committed state
+        let sd = dump(&*snap, &self.ids, &self.gdiff);
+        if sd != d {
+            self.out.oracle_fail("snapshot-neq-store-at-quiescence", &format!("snapshot `{}` store `{}`", sd.line(), line));
+        }
+        if snap.tip_hash() != tip.hash() {
+            self.out.oracle_fail("snapshot-tip-neq-store-tip", "");
+        }
+        let raw_node = raw_view(node.store());
+        let mmr_node = mmr_rows(node.store(), tip.number());
+        let b = self.builder.as_mut().unwrap();
+        let rs = b.replay_store(&tip.hash());
+        let rd = dump(rs, &self.ids, &self.gdiff);
+        let mut fails = compare_with_replay(&d, &rd);
+        let raw_replay = raw_view(rs);
+        for ((c, a), (_, r)) in raw_node.iter().zip(raw_replay.iter()) {
+            if a != r {
+                fails.push((format!("raw-column-{}-neq-replay", c), format!("{} rows vs {} rows", a.len(), r.len())));
+            }
+        }
+        if mmr_node != mmr_rows(rs, tip.number()) {
+            fails.push(("mmr-neq-replay".to_string(), format!("tip number {}", tip.number())));
+        }
+        for (c, t) in fails {
+            if c == "epoch-number-row-neq-replay" {
+                self.stale_epnum_seen = true;
+                // observable effect: the epoch the node reports for that number is not the main chain's
+                let store = node.store();
+                let mut eff = String::new();
+                for n in 0..=store.get_current_epoch_ext().map(|e| e.number()).unwrap_or(0) {
+                    if let Some(e) = store.get_epoch_index(n).and_then(|i| store.get_epoch_ext(&i)) {
+                        let h = e.last_block_hash_in_previous_epoch();
+                        if n > 0 && !store.is_main_chain(&h) {
+                            eff = format!("get_epoch_index({n}) -> epoch whose last_block_hash_in_previous_epoch is block {} which is NOT on the main chain", self.ids.b(&h).1);
+                        }
+                    }
+                }
+                self.out.oracle_fail(&c, &format!("{} ; {}", t, eff));
+            } else {
+                self.out.oracle_fail(&c, &t);
+            }
+        }
+        self.snaps.push((snap, line.clone()));
+        line
+    }
+
+    fn check_snapshot(&mut self, s: &Arc<Snapshot>, what: &str) {
+        let d = dump(&**s, &self.ids, &self.gdiff);
+        let b = self.builder.as_mut().unwrap();
+        let rs = b.replay_store(&s.tip_hash());
+        let rd = dump(rs, &self.ids, &self.gdiff);
+        for (c, t) in compare_with_replay(&d, &rd) {
+            if c == "epoch-number-row-neq-replay" {
+                self.out.oracle_fail(&c, &format!("({}) {}", what, t));
+            } else {
+                self.out.oracle_fail(&format!("{}-{}", what, c), &t);
+            }
+        }
+        let n = s.tip_header().number();
+        if mmr_rows(&**s, n) != mmr_rows(rs, n) {
+            self.out.oracle_fail(&format!("{}-mmr-neq-replay", what), "");
+        }
+        self.out.count(&format!("{}_checked", what));
+    }
+
+    pub fn end_case(&mut self) {
+        if self.node.is_none() {
+            return;
+        }
+        // snapshots grabbed concurrently: each equals the replay of the chain its own tip names
+        if let Some(mut r) = self.reader.take() {
+            r.stop.store(true, Ordering::Relaxed);
+            r.jh.take().unwrap().join().unwrap();
+            let got: Vec<Arc<Snapshot>> = std::mem::take(&mut *r.got.lock().unwrap());
+            let mut seen = HashSet::new();
+            // at most 12 per case (each needs a reference replay), spread over the run
+            let step = (got.len() / 12).max(1);
+            for s in got.iter().step_by(step) {
+                if seen.insert(Arc::as_ptr(s) as usize) {
+                    self.check_snapshot(s, "reader-snapshot");
+                }
+            }
+        }
+        // snapshots are values: every snapshot published earlier still reads what it read then
+        let snaps = std::mem::take(&mut self.snaps);
+        for (s, line) in snaps.iter() {
+            let now = dump(&**s, &self.ids, &self.gdiff).line();
+            if &now != line {
+                self.out.oracle_fail("snapshot-changed-after-publication", &format!("then `{}` now `{}`", line, now));
+            }
+        }
+        drop(snaps);
+        if let Some(n) = self.node.take() {
+            n.stop();
+        }
+        self.builder.take();
+        self.ids = Ids::default();
+        self.ablocks.clear();
+        self.atxs.clear();
+        let _ = std::fs::remove_dir_all(self.base.join(format!("case-{}", self.case_no)));
+    }
+
+    fn outs_text(t: &TransactionView) -> String {
+        let v: Vec<String> = t.outputs_data().into_iter().map(|d| dtag(&d.raw_data())).collect();
+        list(&v)
+    }
+
+    /// op lines describing the genesis block of a configuration
+    pub fn genesis_ops(cfg: &NodeCfg) -> Vec<String> {
+        let c = make_consensus(cfg);
+        let mut v = vec![];
+        let g = c.genesis_block();
+        for (i, t) in g.transactions().iter().enumerate() {
+            v.push(format!("gtx {} out={}", i, Self::outs_text(t)));
+        }
+        v.push(format!("genesis txs={}", list(&(0..g.transactions().len() as u64).collect::<Vec<_>>())));
+        v
+    }
+
+    pub fn apply(&mut self, line: &str) {
+        let t: Vec<&str> = line.split(' ').collect();
+        match t[0] {
+            "cfg" => {
+                let cfg = NodeCfg { epoch_len: t[1].parse().unwrap(), window: (t[2].parse().unwrap(), t[3].parse().unwrap()), genesis_cells: t[4].parse().unwrap(), with_pool: false, ..Default::default() };
+                let consensus = make_consensus(&cfg);
+                let dir = self.base.join(format!("case-{}", self.case_no));
+                let _ = std::fs::remove_dir_all(&dir);
+                self.gdiff = consensus.genesis_block().difficulty();
+                self.node = Some(Node::start(&dir.join("node"), consensus.clone(), &cfg));
+                let mut b = ChainBuilder::new(consensus.clone(), &dir.join("builder"));
+                b.max_branch_stores = 8;
+                self.builder = Some(b);
+                self.cfg = cfg;
+                self.out.op(line, "ok");
+            }
+            "gtx" => {
+                let id: u64 = t[1].parse().unwrap();
+                let g = self.node.as_ref().unwrap().consensus.genesis_block().clone();
+                let tx = g.transactions().get(id as usize).expect("genesis tx index").clone();
+                assert_eq!(kv(t[2], "out"), Self::outs_text(&tx), "gtx line does not describe the real genesis");
+                self.ids.add_tx(id, &tx);
+                self.atxs.insert(id, ATx { id, fee: 0, salt: 0, inputs: vec![], nout: tx.outputs().len() });
+                self.out.op(line, "ok");
+            }
+            "genesis" => {
+                let g = self.node.as_ref().unwrap().consensus.genesis_block().clone();
+                let txs = parse_list(kv(t[1], "txs"));
+                assert_eq!(txs.len(), g.transactions().len());
+                self.ids.blk.insert(g.hash(), 0);
+                self.ids.blkv.insert(0, g.clone());
+                self.ablocks.insert(0, ABlock { id: 0, parent: 0, number: 0, salt: 0, cb_out: true, txs: txs[1..].to_vec(), props: vec![], uncles: vec![] });
+                self.start_reader();
+                let d = self.observe();
+                self.out.op(line, &d);
+            }
+            "tx" => {
+                let id: u64 = t[1].parse().unwrap();
+                let fee: u64 = kv(t[2], "fee").parse().unwrap();
+                let salt: u64 = kv(t[3], "salt").parse().unwrap();
+                let ins: Vec<(u64, u32)> = kv(t[4], "in").split(',').map(|p| { let (a, b) = p.split_once(':').expect("tx:idx"); (a.parse().unwrap(), b.parse().unwrap()) }).collect();
+                let outs = kv(t[5], "out");
+                let nout = outs.split(',').count();
+                let inputs: Vec<(OutPoint, u64)> = ins.iter().map(|(a, i)| (OutPoint::new(self.ids.txv.get(a).expect("input tx known").hash(), *i), self.cap_of(*a, *i))).collect();
+                let tx = spend_tx(&inputs, nout, fee, salt);
+                assert_eq!(outs, Self::outs_text(&tx), "tx line does not describe the built transaction");
+                self.ids.add_tx(id, &tx);
+                self.atxs.insert(id, ATx { id, fee, salt, inputs: ins, nout });
+                self.out.op(line, "ok");
+                self.out.count("tx");
+            }
+            "block" => {
+                let id: u64 = t[1].parse().unwrap();
+                let parent: u64 = t[2].parse().unwrap();
+                let salt: u64 = kv(t[3], "salt").parse().unwrap();
+                let epf = kv(t[4], "ep");
+                let cb: u64 = kv(t[5], "cb").parse().unwrap();
+                let txs = parse_list(kv(t[6], "txs"));
+                let props = parse_list(kv(t[7], "props"));
+                let uncles = parse_list(kv(t[8], "uncles"));
+                let ph = self.ids.blkv.get(&parent).expect("parent known").hash();
+                let spec = BlockSpec {
+                    txs: txs.iter().map(|i| self.ids.txv[i].clone()).collect(),
+                    proposals: props.iter().map(|i| self.ids.txv[i].proposal_short_id()).collect(),
+                    uncles: uncles.iter().map(|i| self.ids.blkv[i].as_uncle()).collect(),
+                    salt,
+                    ..Default::default()
+                };
+                let blk = self.builder.as_mut().unwrap().build(&ph, &spec);
+                let e = blk.epoch();
+                assert_eq!(epf, format!("{}.{}.{}", e.number(), e.index(), e.length()), "block line epoch differs from the built block");
+                assert_eq!(cb as usize, blk.transactions()[0].outputs().len(), "block line cb differs from the built block");
+                self.ids.add_block(id, &blk);
+                let number = blk.number();
+                self.ablocks.insert(id, ABlock { id, parent, number, salt, cb_out: cb == 1, txs, props, uncles: uncles.clone() });
+                let old_tip = self.node.as_ref().unwrap().tip();
+                let r = self.node.as_ref().unwrap().process(&blk);
+                let res = match &r {
+                    Ok(true) => "new",
+                    Ok(false) => "known",
+                    Err(_) => "err",
+                };
+                if let Err(e) = &r {
+                    self.out.count("block_rejected");
+                    eprintln!("C02: block {} rejected: {}", id, e);
+                }
+                let new_tip = self.node.as_ref().unwrap().tip();
+                if new_tip.hash() == blk.hash() && blk.parent_hash() != old_tip.hash() {
+                    // depth of the reorg = number of detached blocks
+                    let mut h = blk.parent_hash();
+                    let store = self.node.as_ref().unwrap().store();
+                    while !(store.get_block_hash(store.get_block_header(&h).unwrap().number()).as_ref() == Some(&h)) {
+                        h = store.get_block_header(&h).unwrap().parent_hash();
+                    }
+                    let common = store.get_block_header(&h).unwrap().number();
+                    let depth = old_tip.number() - common;
+                    self.reorg_depths.insert(depth);
+                    self.out.count("reorg");
+                    self.out.count(&format!("reorg_depth_{:02}", depth));
+                } else if new_tip.hash() == blk.hash() {
+                    self.out.count("extend");
+                } else {
+                    self.out.count("side_block");
+                }
+                if !uncles.is_empty() {
+                    self.out.count("block_with_uncles");
+                }
+                let d = self.observe();
+                self.out.op(line, &format!("{} {}", res, d));
+            }
+            "truncate" => {
+                let id: u64 = t[1].parse().unwrap();
+                let h = self.ids.blkv.get(&id).expect("block known").hash();
+                let r = self.node.as_ref().unwrap().controller().truncate(h);
+                let d = self.observe();
+                self.out.op(line, &format!("{} {}", if r.is_ok() { "ok" } else { "err" }, d));
+                self.out.count("truncate");
+            }
+            "snap" => {
+                let k: usize = t[1].parse().unwrap();
+                let (s, then) = self.snaps.get(k).expect("snapshot index").clone();
+                let now = dump(&*s, &self.ids, &self.gdiff).line();
+                if now != then {
+                    self.out.oracle_fail("snapshot-changed-after-publication", &format!("then `{}` now `{}`", then, now));
+                }
+                self.check_snapshot(&s, "kept-snapshot");
+                self.out.op(line, &now);
+            }
+            _ => panic!("malformed op line: {}", line),
+        }
+    }
+
+    pub fn n_state_ops(&self) -> usize {
+        self.snaps.len()
+    }
+}
+
+// ------------------------------------------------------------------------------------------------
+// generator
+// ------------------------------------------------------------------------------------------------
+
+struct Ctx {
+    live: BTreeSet<(u64, u32)>,
+    proposed: HashMap<u64, Vec<u64>>,
+    committed: HashSet<u64>,
+    ancestors: Vec<u64>,
+    uncled: HashSet<u64>,
+}
+
+struct Gen {
+    next_tx: u64,
+    next_blk: u64,
+    l: u64,
+    w: (u64, u64),
+}
+
+impl Gen {
+    fn ctx(&self, ex: &Exec, tip: u64) -> Ctx {
+        let mut path = vec![tip];
+        let mut cur = tip;
+        while cur != 0 {
+            cur = ex.ablocks[&cur].parent;
+            path.push(cur);
+        }
+        path.reverse();
+        let mut c = Ctx { live: BTreeSet::new(), proposed: HashMap::new(), committed: HashSet::new(), ancestors: path.clone(), uncled: HashSet::new() };
+        for b in path {
+            let ab = &ex.ablocks[&b];
+            if b == 0 {
+                c.live.insert((0, 0));
+            } else if ab.cb_out {
+                c.live.insert((CB_BASE + b, 0));
+            }
+            for t in &ab.txs {
+                let at = &ex.atxs[t];
+                for i in &at.inputs {
+                    c.live.remove(i);
+                }
+                for o in 0..at.nout {
+                    c.live.insert((*t, o as u32));
+                }
+                c.committed.insert(*t);
+            }
+            if b != 0 {
+                for p in &ab.props {
+                    c.proposed.entry(*p).or_default().push(ab.number);
+                }
+                for u in &ab.uncles {
+                    c.uncled.insert(*u);
+                    for p in &ex.ablocks[u].props {
+                        c.proposed.entry(*p).or_default().push(ab.number);
+                    }
+                }
+            }
+        }
+        c
+    }
+
+    /// emit (tx lines +) one block line on `parent`; returns the block id
+    fn build(&mut self, ex: &mut Exec, rng: &mut Rng, parent: u64, busy: bool) -> u64 {
+        let c = self.ctx(ex, parent);
+        let n = ex.ablocks[&parent].number + 1;
+        let (wc, wf) = self.w;
+        let in_window = |ps: &Vec<u64>| ps.iter().any(|p| *p >= 1 && p + wc <= n && n <= p + wf);
+        // commits
+        let mut live = c.live.clone();
+        let mut cands: Vec<u64> = c.proposed.iter().filter(|(t, ps)| !c.committed.contains(*t) && in_window(ps)).map(|(t, _)| *t).collect();
+        cands.sort();
+        let mut txs = vec![];
+        for t in cands {
+            let at = ex.atxs[&t].clone();
+            if rng.chance(4, 5) && at.inputs.iter().all(|i| live.contains(i)) {
+                for i in &at.inputs {
+                    live.remove(i);
+                }
+                for o in 0..at.nout {
+                    live.insert((t, o as u32));
+                }
+                txs.push(t);
+            }
+        }
+        // pending (proposed, not committed, still committable later) transactions of this branch
+        let pending: Vec<u64> = c.proposed.iter().filter(|(t, ps)| !c.committed.contains(*t) && !txs.contains(t) && ps.iter().any(|p| n < p + wf)).map(|(t, _)| *t).collect();
+        let mut claimed: HashSet<(u64, u32)> = HashSet::new();
+        let mut avail: Vec<(u64, u32)> = live.iter().filter(|x| **x != (0, 0)).cloned().collect();
+        for t in &pending {
+            let at = &ex.atxs[t];
+            for i in &at.inputs {
+                claimed.insert(*i);
+            }
+            for o in 0..at.nout {
+                avail.push((*t, o as u32));
+            }
+        }
+        avail.sort();
+        // proposals
+        let mut props: Vec<u64> = vec![];
+        let k = if busy { rng.range(0, 3) } else { rng.range(0, 1) };
+        for _ in 0..k {
+            // mostly unclaimed cells; sometimes a conflicting spend (only one of the two can be committed)
+            let pool: Vec<(u64, u32)> = avail.iter().filter(|x| !claimed.contains(x) || rng.chance(1, 8)).filter(|x| ex.cap_of(x.0, x.1) >= 300_0000_0000).cloned().collect();
+            if pool.is_empty() {
+                break;
+            }
+            let nin = if pool.len() >= 2 && rng.chance(1, 4) { 2 } else { 1 };
+            let mut ins: Vec<(u64, u32)> = vec![];
+            for _ in 0..nin {
+                let x = *rng.pick(&pool);
+                if !ins.contains(&x) {
+                    ins.push(x);
+                }
+            }
+            let fee = 1000 + rng.below(5) * 100;
+            let total: u64 = ins.iter().map(|x| ex.cap_of(x.0, x.1)).sum::<u64>() - fee;
+            let mut nout = rng.range(1, 3) as usize;
+            while nout > 1 && total / (nout as u64) < 300_0000_0000 {
+                nout -= 1;
+            }
+            let id = self.next_tx;
+            self.next_tx += 1;
+            let outs: Vec<String> = (0..nout).map(|_| format!("8.{}", id)).collect();
+            let ins_s: Vec<String> = ins.iter().map(|(a, b)| format!("{}:{}", a, b)).collect();
+            ex.apply(&format!("tx {} fee={} salt={} in={} out={}", id, fee, id, ins_s.join(","), outs.join(",")));
+            for i in &ins {
+                claimed.insert(*i);
+            }
+            for o in 0..nout {
+                avail.push((id, o as u32));
+            }
+            props.push(id);
+        }
+        // re-propose transactions known from other branches (or whose window ran out) whose inputs exist here
+        let mut others: Vec<u64> = ex.atxs.keys().filter(|t| **t >= 100 && !c.committed.contains(*t) && !txs.contains(*t) && !pending.contains(*t) && !props.contains(*t)).cloned().collect();
+        others.sort();
+        for t in others {
+            if props.len() < 4 && rng.chance(1, 2) && ex.atxs[&t].inputs.iter().all(|i| avail.contains(i)) {
+                props.push(t);
+                ex.out_count("reproposed");
+            }
+        }
+        // uncles
+        let mut uncles = vec![];
+        if rng.chance(1, 2) {
+            let mut cand: Vec<u64> = ex
+                .ablocks
+                .values()
+                .filter(|u| u.id != 0 && !c.ancestors.contains(&u.id) && c.ancestors.contains(&u.parent) && u.number < n && u.number / self.l == n / self.l && !c.uncled.contains(&u.id))
+                .map(|u| u.id)
+                .collect();
+            cand.sort();
+            rng.shuffle(&mut cand);
+            for u in cand.into_iter().take(rng.range(1, 2) as usize) {
+                uncles.push(u);
+            }
+        }
+        let id = self.next_blk;
+        self.next_blk += 1;
+        let cb = if n > wf + 1 { 1 } else { 0 };
+        let line = format!("block {} {} salt={} ep={}.{}.{} cb={} txs={} props={} uncles={}", id, parent, id, n / self.l, n % self.l, self.l, cb, list(&txs), list(&props), list(&uncles));
+        ex.apply(&line);
+        id
+    }
+}
+
+impl Exec<'_> {
+    fn out_count(&mut self, k: &str) {
+        self.out.count(k);
+    }
+    fn ancestor(&self, mut b: u64, back: u64) -> u64 {
+        for _ in 0..back {
+            if b == 0 {
+                break;
+            }
+            b = self.ablocks[&b].parent;
+        }
+        b
+    }
+}
+
+fn gen_case(ex: &mut Exec, rng: &mut Rng, case: u64, target_blocks: u64) {
+    let l = rng.range(3, 8);
+    let w = *rng.pick(&[(1u64, 3u64), (2, 4), (1, 2)]);
+    let gcells = rng.range(5, 9);
+    ex.begin_case(&format!("store l={} w={}.{} g={}", l, w.0, w.1, gcells));
+    let cfg = NodeCfg { epoch_len: l, window: w, genesis_cells: gcells, with_pool: false, ..Default::default() };
+    ex.apply(&format!("cfg {} {} {} {}", l, w.0, w.1, gcells));
+    for op in Exec::genesis_ops(&cfg) {
+        ex.apply(&op);
+    }
+    let mut g = Gen { next_tx: 100, next_blk: 1, l, w };
+    let mut tips: Vec<u64> = vec![];
+    let _ = case;
+    while g.next_blk <= target_blocks {
+        let tip = ex.tip_id();
+        let tipn = ex.ablocks[&tip].number;
+        let r = rng.below(100);
+        if r < 45 || tipn < 3 {
+            g.build(ex, rng, tip, true);
+        } else if r < 65 {
+            // a fork of depth d that overtakes the main chain (reorg of depth d), the main chain racing sometimes
+            let d = rng.range(1, tipn.min(10));
+            let mut p = ex.ancestor(tip, d);
+            let mut need = d + 1;
+            while need > 0 && g.next_blk <= target_blocks + 12 {
+                p = g.build(ex, rng, p, true);
+                need -= 1;
+                if need > 0 && rng.chance(1, 6) {
+                    let t2 = ex.tip_id();
+                    if t2 != p {
+                        g.build(ex, rng, t2, false);
+                        need += 1;
+                    }
+                }
+            }
+        } else if r < 75 {
+            // F9 shape: a fork that diverges before an epoch boundary and crosses it while staying
+            // lighter than the main chain
+            let k = tipn / l;
+            if k >= 1 {
+                let bnd = k * l; // first block of epoch k, bnd <= tipn
+                let j = rng.range(1, bnd.min(3));
+                let mut p = ex.ancestor(tip, tipn - (bnd - j));
+                for _ in 0..j {
+                    p = g.build(ex, rng, p, false);
+                }
+                tips.push(p);
+                ex.out_count("fork_crossing_epoch_boundary_lighter");
+            }
+        } else if r < 87 {
+            // a short side branch (equal or lower work), or extend an older side tip
+            if !tips.is_empty() && rng.chance(1, 2) {
+                let i = rng.below(tips.len() as u64) as usize;
+                let p = tips[i];
+                tips[i] = g.build(ex, rng, p, true);
+            } else {
+                let d = rng.range(1, tipn.min(6));
+                let p = ex.ancestor(tip, d);
+                let b = g.build(ex, rng, p, true);
+                tips.push(b);
+            }
+        } else if r < 93 {
+            let d = rng.range(1, tipn.min(10));
+            let t = ex.ancestor(tip, d);
+            ex.apply(&format!("truncate {}", t));
+        } else {
+            let k = rng.below(ex.n_state_ops() as u64);
+            ex.apply(&format!("snap {}", k));
+        }
+    }
+    // a few old snapshots at the end
+    for _ in 0..3 {
+        let k = rng.below(ex.n_state_ops() as u64);
+        ex.apply(&format!("snap {}", k));
+    }
+    let fp = format!("l{}w{}.{}d{:?}", l, w.0, w.1, ex.reorg_depths);
+    if !ex.reorg_depths.is_empty() {
+        ex.out.nontrivial(fp);
+    }
+    ex.reorg_depths.clear();
+    ex.end_case();
+}
+
+pub fn run(opts: &Opts) {
+    let base = scratch_dir(&opts.out, "c02");
+    let mut out = Out::new(&opts.out);
+    {
+        let mut ex = Exec::new(&mut out, base.clone());
+        if let Some(rp) = &opts.replay {
+            for l in read_replay_ops(rp) {
+                if l.starts_with("case ") {
+                    let label = l.splitn(3, ' ').nth(2).unwrap_or("replay").to_string();
+                    ex.begin_case(&label);
+                } else {
+                    if ex.case_no == 0 {
+                        ex.begin_case("replay");
+                    }
+                    ex.apply(&l);
+                }
+            }
+            ex.end_case();
+        } else {
+            let mut rng = Rng::new(opts.seed);
+            let cases = if opts.thorough() { 220 } else { 22 } * opts.scale;
+            for c in 0..cases {
+                let blocks = if opts.thorough() { rng.range(20, 200) } else { rng.range(20, 60) };
+                gen_case(&mut ex, &mut rng, c, blocks);
+            }
+        }
+    }
+    out.finish("a case is non-trivial when its history contains at least one reorganisation; the fingerprint is (epoch length, proposal window, set of reorg depths reached)");
+    let _ = std::fs::remove_dir_all(&base);
 }
